@@ -38,6 +38,7 @@ type mconf struct {
 	rom   string // file path
 	seed  uint64 // button schedule seed
 	audio bool
+	video bool // a display attached (the stub of the verif build): runFrame renders and polls it
 }
 
 var mconfs = map[string]mconf{}
@@ -71,7 +72,10 @@ type inst struct {
 
 func newInst(c mconf) *inst {
 	w := &bytes.Buffer{}
-	gb := gameboy.New(gameboy.Config{RomFilename: c.rom, DisableVideoOutput: true, DisableAudioOutput: !c.audio, SerialWriter: w})
+	gb := gameboy.New(gameboy.Config{RomFilename: c.rom, DisableVideoOutput: !c.video, DisableAudioOutput: !c.audio, SerialWriter: w})
+	if c.video {
+		gb.VerifParts().Display.CloseAfter = 1 << 30
+	}
 	return &inst{gb: gb, conf: c, serial: w, h: 1469598103934665603}
 }
 
@@ -163,6 +167,7 @@ func (in *inst) digest() string {
 	in2 := *in
 	in2.mix(in.serial.Bytes())
 	in2.mix(p.Mapper.DumpRAM())
+	in2.mix([]byte(fmt.Sprintf("%v", p.Mapper.VerifRTCGet()))) // the cartridge clock (ticked by the frame loop for every cartridge)
 	// registers visible on the bus (reads are side-effect free except for the OAM-bug flag, which is cleared at the next cycle)
 	var regs []byte
 	for a := 0xff00; a <= 0xffff; a++ {
@@ -188,6 +193,10 @@ func (c mconf) synthetic() bool { return strings.Contains(c.rom, "verif-synth") 
 
 type multiRun struct{ c *ctx }
 
+type writerFunc func(p []byte) (int, error)
+
+func (f writerFunc) Write(p []byte) (int, error) { return f(p) }
+
 func (x *multiRun) do(op string) string {
 	w := strings.Fields(op)
 	x.c.begin(op)
@@ -196,7 +205,7 @@ func (x *multiRun) do(op string) string {
 		case "reset":
 			return "ok"
 		case "rom": // rom <id> <path-or-synth:seed> <button-seed> <audio>
-			c := mconf{id: w[1], rom: w[2], seed: uint64(atoi(w[3])), audio: w[4] == "1"}
+			c := mconf{id: w[1], rom: w[2], seed: uint64(atoi(w[3])), audio: w[4] == "1", video: len(w) > 5 && w[5] == "1"}
 			if strings.HasPrefix(w[2], "synth:") {
 				c.rom = synthRom(uint64(atoi(strings.TrimPrefix(w[2], "synth:"))))
 			} else if strings.HasSuffix(w[2], ":") && craftedRoms[w[2]] != nil {
@@ -315,6 +324,70 @@ func (x *multiRun) do(op string) string {
 			}
 			want := 17556 * frames / 7
 			return fmt.Sprintf("serial-complete=%s in-order=%s", b01(len(b) >= want-2 && len(b) <= want+2), b01(inOrder))
+		case "serconc": // serconc <idA> <idB>: instance A's writer is still inside Write when instance B writes SB
+			ca, cb := mconfs[w[1]], mconfs[w[2]]
+			aIn, bDone := make(chan struct{}), make(chan struct{})
+			var gotA, gotB []byte
+			var onceA, onceB sync.Once
+			wa := writerFunc(func(p []byte) (int, error) {
+				onceA.Do(func() {
+					close(aIn)
+					select {
+					case <-bDone:
+					case <-time.After(3 * time.Second):
+					}
+				})
+				gotA = append(gotA, p...) // read AFTER the other instance has written
+				return len(p), nil
+			})
+			wb := writerFunc(func(p []byte) (int, error) {
+				gotB = append(gotB, p...)
+				onceB.Do(func() { close(bDone) })
+				return len(p), nil
+			})
+			ga := gameboy.New(gameboy.Config{RomFilename: ca.rom, DisableVideoOutput: true, DisableAudioOutput: true, SerialWriter: wa})
+			gbb := gameboy.New(gameboy.Config{RomFilename: cb.rom, DisableVideoOutput: true, DisableAudioOutput: true, SerialWriter: wb})
+			fin := make(chan struct{})
+			go func() {
+				ga.VerifRunFrame(context.Background())
+				close(fin)
+			}()
+			select {
+			case <-aIn:
+			case <-time.After(3 * time.Second):
+			}
+			gbb.VerifRunFrame(context.Background())
+			<-fin
+			ok := func(b []byte, first byte) bool {
+				for i, v := range b {
+					if v != first+byte(i) {
+						return false
+					}
+				}
+				return len(b) > 100
+			}
+			return fmt.Sprintf("a-own-bytes=%s b-own-bytes=%s", b01(ok(gotA, 0x00)), b01(ok(gotB, 0x80)))
+		case "runcancelw": // runcancelw <id> <ms>: Run() on the idle ROM cancelled after <ms> ms - whole frames only
+			c := mconfs[w[1]]
+			gb := gameboy.New(gameboy.Config{RomFilename: c.rom, DisableVideoOutput: false, DisableAudioOutput: true})
+			p := gb.VerifParts()
+			c0 := p.Timer.VerifCounter()
+			ctx, cancel := context.WithCancel(context.Background())
+			go func() {
+				time.Sleep(time.Duration(atoi(w[2])) * time.Millisecond)
+				cancel()
+			}()
+			gb.Run(ctx)
+			// the idle ROM never writes DIV: the 16-bit counter advanced by 4 per machine cycle executed
+			adv := (int(p.Timer.VerifCounter()) - int(c0) + 65536) % 65536
+			whole := false
+			for f := 0; f < 16384; f++ { // 4*17556 = 4688 (mod 65536) per whole frame
+				if (f*4688)%65536 == adv {
+					whole = true
+					break
+				}
+			}
+			return fmt.Sprintf("whole-frames=%s display-cleanups=%d", b01(whole), p.Display.Cleanups)
 		case "rundeadline": // rundeadline <id> <ms>: the context ends by DEADLINE (0 = already expired), not by cancel()
 			c := mconfs[w[1]]
 			gb := gameboy.New(gameboy.Config{RomFilename: c.rom, DisableVideoOutput: false, DisableAudioOutput: true})
@@ -427,8 +500,19 @@ func synthRom(seed uint64) string {
 var craftedRoms = map[string][]byte{
 	// spins on JR -2 (touches no register)
 	"loop:": {0x18, 0xfe},
+	// INC BC; JR -3: a 5-cycle loop, so frame boundaries fall inside instructions
+	"loop5:": {0x03, 0x18, 0xfd},
 	// waits a little, executes STOP with the LCD on, then would spin
 	"stop:": {0x06, 0x40, 0x05, 0x20, 0xfd, 0x10, 0x00, 0x18, 0xfe},
+	// IE = timer, TAC = 05 (fastest), EI, then STOP: an enabled request arrives while the CPU is stopped with IME set
+	"stopirq:": {0x3e, 0x04, 0xe0, 0xff, 0x3e, 0x05, 0xe0, 0x07, 0xfb, 0x00, 0x10, 0x00, 0x18, 0xfe},
+	// the same STOP program on an MBC3+TIMER cartridge (the clock must keep time) ...
+	"stoprtc:": {0x06, 0x40, 0x05, 0x20, 0xfd, 0x10, 0x00, 0x18, 0xfe},
+	// ... and with a square channel playing (samples must keep coming)
+	"stopaudio:": {0x3e, 0x80, 0xe0, 0x26, 0x3e, 0x77, 0xe0, 0x24, 0x3e, 0xff, 0xe0, 0x25, 0x3e, 0xf0, 0xe0, 0x12, 0x3e, 0x87, 0xe0, 0x14,
+		0x06, 0x40, 0x05, 0x20, 0xfd, 0x10, 0x00, 0x18, 0xfe},
+	// LD A,80; loop: LDH (01),A; INC A; JR loop  -- writes 80 81 82 ... to SB
+	"serial2:": {0x3e, 0x80, 0xe0, 0x01, 0x3c, 0x18, 0xfb},
 	// XOR A; loop: LDH (01),A; INC A; JR loop  -- writes 00 01 02 ... to SB for ever
 	"serial:": {0xaf, 0xe0, 0x01, 0x3c, 0x18, 0xfb},
 	// NOP x3; loop: EI; JR loop -- every frame ends between an EI and the instruction after it
@@ -452,6 +536,10 @@ func craftedRom(kind string) string {
 	rom := make([]byte, 0x8000)
 	copy(rom[0x100:], craftedRoms[kind])
 	copy(rom[0x40:], []byte{0x16, 0x77, 0xc9}) // LD D,77; RET
+	copy(rom[0x50:], []byte{0x1e, 0x50, 0xd9}) // LD E,50; RETI
+	if kind == "stoprtc:" {
+		rom[0x147], rom[0x148], rom[0x149] = 0x10, 0x00, 0x03
+	}
 	os.WriteFile(p, rom, 0o644)
 	return p
 }
@@ -486,9 +574,35 @@ func (x *multiRun) timerPhases(nk int) {
 	}
 }
 
+// what every property borrows from this mode: the REAL frame loop (runFrame) against the documented loop on small
+// crafted programs - idle, STOP with the LCD on, STOP with an interrupt arriving, STOP on a clock cartridge, STOP
+// with sound playing - and the single timer overflow of a frame on its first / last cycles
+func (x *multiRun) frameLoopSuite(nk int) {
+	x.craftedManual("loop", "loop:", 3)
+	x.craftedManual("stop", "stop:", 3)
+	x.craftedManual("stopirq", "stopirq:", 3)
+	x.craftedManual("stoprtc", "stoprtc:", 3)
+	x.craftedManualAudio("stopaudio", "stopaudio:", 3)
+	x.craftedManual("loop5", "loop5:", 4)
+	x.craftedManualA("loop5d", "loop5:", 4, 2) // the same with a display attached
+	x.timerPhases(nk)
+}
+
+func (x *multiRun) craftedManual(id, kind string, frames int) { x.craftedManualA(id, kind, frames, 0) }
+func (x *multiRun) craftedManualAudio(id, kind string, frames int) {
+	x.craftedManualA(id, kind, frames, 1)
+}
+
 // a crafted ROM: first solo run = expectation, then the documented loop by hand
-func (x *multiRun) craftedManual(id, kind string, frames int) {
-	x.do(fmt.Sprintf("rom %s %s 0 0", id, kind))
+func (x *multiRun) craftedManualA(id, kind string, frames int, audio int) {
+	if _, ok := mconfs[id]; ok {
+		return
+	}
+	if audio == 2 {
+		x.do(fmt.Sprintf("rom %s %s 0 0 1", id, kind))
+	} else {
+		x.do(fmt.Sprintf("rom %s %s 0 %d", id, kind, audio))
+	}
 	d := soloDigest(mconfs[id], frames, false)
 	x.do(fmt.Sprintf("expect %s %d %s", id, frames, d))
 	x.do(fmt.Sprintf("manual %s %d", id, frames))
@@ -500,23 +614,24 @@ func multiGen(c *ctx) {
 	prop := os.Getenv("VERIF_PROP")
 	x.do("reset")
 	// other properties borrow the parts of this mode that go through gameboy.New / runFrame
-	switch prop {
-	case "C12":
-		nk := 12
-		if c.thorough() {
-			nk = 400
+	if prop != "" && prop != "C24" && prop != "C25" && prop != "C26" {
+		nk := 0
+		if prop == "C12" {
+			nk = 12
+			if c.thorough() {
+				nk = 400
+			}
 		}
-		x.timerPhases(nk)
-		return
-	case "C13", "C14":
-		x.craftedManual("stop", "stop:", 4)
-		x.craftedManual("loop", "loop:", 4)
-		return
-	case "C23":
-		x.do("rom ser serial: 0 0")
-		for _, f := range []int{1, 2, 5} {
-			x.do(fmt.Sprintf("serlong ser %d", f))
-			c.class(fmt.Sprintf("serlong/%d", f))
+		x.frameLoopSuite(nk)
+		if prop == "C23" {
+			x.do("rom ser serial: 0 0")
+			for _, f := range []int{1, 2, 5} {
+				x.do(fmt.Sprintf("serlong ser %d", f))
+				c.class(fmt.Sprintf("serlong/%d", f))
+			}
+			x.do("rom ser2 serial2: 0 0")
+			x.do("serconc ser ser2")
+			c.class("serconc")
 		}
 		return
 	}
@@ -642,7 +757,12 @@ func multiGen(c *ctx) {
 		if c.thorough() {
 			nk = 200
 		}
-		x.timerPhases(nk)
-		x.craftedManual("stop", "stop:", 4)
+		x.frameLoopSuite(nk)
+		for k := 0; k < 4; k++ {
+			x.do(fmt.Sprintf("runcancelw loop %d", 3+c.rng.intn(60)))
+		}
+		x.do("rom ser serial: 0 0")
+		x.do("rom ser2 serial2: 0 0")
+		x.do("serconc ser ser2")
 	}
 }
